@@ -12,16 +12,18 @@
 // every route in the fakes can be attributed to one version of one endpoint.
 //
 // Oracle, at every quiescent point (after CompleteDeferredWork), from the statement:
-//   (1) per interface name with >=1 live claimant (live = latest update not followed by a remove):
-//       the to/from endpoint chains exist and carry the marker of exactly one endpoint, which is a
-//       live claimant of that name in its LATEST version; the routes of that interface belong to the
-//       same endpoint version and exist iff that endpoint is administratively up ("active"); the
-//       dispatch (iptables dispatch chains evaluated on the interface name, or the nft verdict maps)
-//       sends the interface to its own endpoint chains, which exist.
-//   (2) per interface name with no live claimant: no endpoint chains, no routes, no dispatch entry.
-//   (3) order independence: a fresh manager given only the live endpoints, in one batch, in ascending
-//       and in descending id order, ends with the same owner per interface and identical chains,
-//       routes and dispatch.
+//
+//	(1) per interface name with >=1 live claimant (live = latest update not followed by a remove):
+//	    the to/from endpoint chains exist and carry the marker of exactly one endpoint, which is a
+//	    live claimant of that name in its LATEST version; the routes of that interface belong to the
+//	    same endpoint version and exist iff that endpoint is administratively up ("active"); the
+//	    dispatch (iptables dispatch chains evaluated on the interface name, or the nft verdict maps)
+//	    sends the interface to its own endpoint chains, which exist.
+//	(2) per interface name with no live claimant: no endpoint chains, no routes, no dispatch entry.
+//	(3) order independence: a fresh manager given only the live endpoints, in one batch, in ascending
+//	    and in descending id order, ends with the same owner per interface and identical chains,
+//	    routes and dispatch.
+//
 // The tie-break between claimants (lowest id wins) is NOT encoded; (3) only requires that it is the
 // same whatever the order.
 //
@@ -32,6 +34,7 @@
 package main
 
 import (
+	"context"
 	"errors"
 	"fmt"
 	"io"
@@ -66,7 +69,9 @@ type recTable struct {
 	ops    int
 }
 
-func newRecTable(name string) *recTable { return &recTable{name: name, chains: map[string]*generictables.Chain{}} }
+func newRecTable(name string) *recTable {
+	return &recTable{name: name, chains: map[string]*generictables.Chain{}}
+}
 func (t *recTable) UpdateChain(c *generictables.Chain) {
 	t.ops++
 	t.chains[c.Name] = c
@@ -121,12 +126,12 @@ func (r *recRoutes) RouteUpdate(class routetable.RouteClass, iface string, targe
 	r.RouteRemove(class, iface, target.RouteKey)
 	r.routes[iface] = append(r.routes[iface], target)
 }
-func (r *recRoutes) Index() int                                                  { return 0 }
-func (r *recRoutes) QueueResyncIface(string)                                     {}
-func (r *recRoutes) ReadRoutesFromKernel(string) ([]routetable.Target, error)    { return nil, nil }
-func (r *recRoutes) OnIfaceStateChanged(string, int, ifacemonitor.State)         {}
-func (r *recRoutes) QueueResync()                                                {}
-func (r *recRoutes) Apply() error                                                { return nil }
+func (r *recRoutes) Index() int                                               { return 0 }
+func (r *recRoutes) QueueResyncIface(string)                                  {}
+func (r *recRoutes) ReadRoutesFromKernel(string) ([]routetable.Target, error) { return nil, nil }
+func (r *recRoutes) OnIfaceStateChanged(string, int, ifacemonitor.State)      {}
+func (r *recRoutes) QueueResync()                                             {}
+func (r *recRoutes) Apply() error                                             { return nil }
 
 type recMaps struct {
 	maps map[string]map[string][]string
@@ -139,15 +144,21 @@ func (m *recMaps) AddOrReplaceMap(meta nftables.MapMetadata, members map[string]
 	}
 	m.maps[meta.Name] = cp
 }
-func (m *recMaps) RemoveMap(id string) { delete(m.maps, id) }
+func (m *recMaps) RemoveMap(id string)                                { delete(m.maps, id) }
+func (m *recMaps) MapUpdates() *nftables.MapUpdates                   { return nil }
+func (m *recMaps) FinishMapUpdates(*nftables.MapUpdates)              {}
+func (m *recMaps) LoadDataplaneState(context.Context, []string) error { return nil }
+func (m *recMaps) InvalidateMapsCache()                               {}
 
 type noLinkAddrs struct{}
 
-func (noLinkAddrs) QueueResync()                                { }
-func (noLinkAddrs) SetLinkLocalAddress(string, ip.CIDR) error   { return nil }
-func (noLinkAddrs) RemoveLinkLocalAddress(string)               { }
-func (noLinkAddrs) GetNlHandle() (netlinkshim.Interface, error) { return nil, errors.New("verif: no netlink") }
-func (noLinkAddrs) Apply() error                                { return nil }
+func (noLinkAddrs) QueueResync()                              {}
+func (noLinkAddrs) SetLinkLocalAddress(string, ip.CIDR) error { return nil }
+func (noLinkAddrs) RemoveLinkLocalAddress(string)             {}
+func (noLinkAddrs) GetNlHandle() (netlinkshim.Interface, error) {
+	return nil, errors.New("verif: no netlink")
+}
+func (noLinkAddrs) Apply() error { return nil }
 
 // ---------------------------------------------------------------- world
 
@@ -324,6 +335,9 @@ func dispatchIpt(t *recTable, root string, n string) string {
 				return "" // drop / unknown interface
 			}
 			next = gm[2]
+			if !strings.HasPrefix(next, "cali-") {
+				return "" // terminal target (DROP/REJECT...): unknown interface
+			}
 			break
 		}
 		if next == "" {
@@ -378,14 +392,92 @@ func (w *world) observe(n string) ifaceState {
 
 // ---------------------------------------------------------------- the case
 
+type opT struct {
+	kind   string // update | remove | iface | flush
+	ep     int
+	iface  string
+	active bool
+	up     bool
+	index  int
+}
+
+// structured histories: the smallest shapes of the four shadowing situations (run in both modes)
+func structured(i int) []opT {
+	U := func(ep int, iface string) opT { return opT{kind: "update", ep: ep, iface: iface, active: true} }
+	R := func(ep int) opT { return opT{kind: "remove", ep: ep} }
+	F := opT{kind: "flush"}
+	switch i {
+	case 0: // the active endpoint moves to another interface while a second endpoint waits for the old one
+		return []opT{U(0, "caliif0"), U(1, "caliif0"), F, U(0, "caliif1"), F}
+	case 1: // a shadowed endpoint moves elsewhere, then the endpoint that shadowed it goes away
+		return []opT{U(0, "caliif0"), U(1, "caliif0"), F, U(1, "caliif2"), F, R(0), F}
+	case 2: // an active endpoint moves onto an interface where a preferred endpoint already is
+		return []opT{U(0, "caliif0"), F, U(1, "caliif1"), F, U(1, "caliif0"), F}
+	case 3: // both claimants removed in one batch
+		return []opT{U(0, "caliif0"), U(1, "caliif0"), F, R(0), R(1), F}
+	default: // the preferred claimant removed and the other updated in one batch
+		return []opT{U(0, "caliif0"), U(1, "caliif0"), F, R(0), U(1, "caliif0"), F}
+	}
+}
+
+const nStructured = 10
+const replicas = 3 // the manager iterates Go maps: run every history on several fresh managers
+
+func generate(c *harness.Case) []opT {
+	var ops []opT
+	liveIface := map[int]string{}
+	nOps := 6 + c.R.Intn(c.Pick(24, 40))
+	for op := 0; op < nOps; op++ {
+		switch r := c.R.Intn(10); {
+		case r < 6:
+			i := c.R.Intn(len(epIDs))
+			o := opT{kind: "update", ep: i, active: c.R.Intn(4) != 0}
+			prev, had := liveIface[i]
+			if had && c.R.Intn(3) != 0 {
+				o.iface = prev
+			} else {
+				o.iface = ifaceNames[c.R.Intn(len(ifaceNames))]
+			}
+			liveIface[i] = o.iface
+			ops = append(ops, o)
+		case r < 8:
+			i := c.R.Intn(len(epIDs))
+			if _, had := liveIface[i]; !had && c.R.Intn(3) != 0 {
+				continue
+			}
+			delete(liveIface, i)
+			ops = append(ops, opT{kind: "remove", ep: i})
+		default:
+			ops = append(ops, opT{kind: "iface", iface: ifaceNames[c.R.Intn(len(ifaceNames))], up: c.R.Intn(2) == 0, index: 10 + c.R.Intn(3)})
+		}
+		if c.R.Intn(3) == 0 {
+			ops = append(ops, opT{kind: "flush"})
+		}
+	}
+	return append(ops, opT{kind: "flush"})
+}
+
 func run(c *harness.Case) {
+	var ops []opT
 	nft := c.R.Intn(2) == 0
+	if c.Index < nStructured {
+		ops = structured(c.Index % 5)
+		nft = c.Index >= 5
+	} else {
+		ops = generate(c)
+	}
+	for rep := 0; rep < replicas; rep++ {
+		if !execute(c, ops, nft, rep) {
+			return
+		}
+	}
+}
+
+func execute(c *harness.Case, ops []opT, nft bool, replica int) bool {
 	w := newWorld(nft)
-	live := map[int]*epVersion{} // by endpoint index: latest version, nil/absent = removed
+	live := map[int]*epVersion{} // by endpoint index: latest version, absent = removed
 	versions := map[int]int{}
 	var log []string
-	nOps := 6 + c.R.Intn(c.Pick(24, 40))
-	sinceFlush := 0
 	collisions, renames, checks := 0, 0, 0
 
 	judge := func(final bool) bool {
@@ -395,7 +487,7 @@ func run(c *harness.Case) {
 		}
 		log = append(log, "FLUSH")
 		c.Count("flushes", 1)
-		detail := map[string]any{"history": log, "nft": nft}
+		detail := map[string]any{"history": log, "nft": nft, "replica": replica}
 		var liveDesc []string
 		for i := range epIDs {
 			if v := live[i]; v != nil {
@@ -580,25 +672,19 @@ func run(c *harness.Case) {
 		return true
 	}
 
-	for op := 0; op < nOps; op++ {
-		switch r := c.R.Intn(10); {
-		case r < 6: // update
-			i := c.R.Intn(len(epIDs))
+	for _, o := range ops {
+		switch o.kind {
+		case "update":
+			i := o.ep
 			versions[i]++
-			v := &epVersion{ep: i, version: versions[i], active: c.R.Intn(4) != 0}
+			v := &epVersion{ep: i, version: versions[i], active: o.active, iface: o.iface}
 			prev := live[i]
-			switch {
-			case prev != nil && c.R.Intn(3) != 0:
-				v.iface = prev.iface // plain update
-			default:
-				v.iface = ifaceNames[c.R.Intn(len(ifaceNames))]
-			}
 			if prev != nil && prev.iface != v.iface {
 				renames++
 				c.Count("renames", 1)
 			}
-			for j, o := range live {
-				if j != i && o != nil && o.iface == v.iface {
+			for j := range epIDs {
+				if x := live[j]; j != i && x != nil && x.iface == v.iface {
 					collisions++
 					c.Count("collisions", 1)
 					break
@@ -610,42 +696,35 @@ func run(c *harness.Case) {
 			w.mgr.OnUpdate(v.msg())
 			log = append(log, "UPDATE "+v.String())
 			c.Count("endpoint_updates", 1)
-		case r < 8: // remove
-			i := c.R.Intn(len(epIDs))
-			if live[i] == nil && c.R.Intn(3) != 0 {
-				continue
-			}
-			delete(live, i)
-			w.mgr.OnUpdate(&proto.WorkloadEndpointRemove{Id: epIDs[i]})
-			log = append(log, fmt.Sprintf("REMOVE ep%d", i))
+		case "remove":
+			delete(live, o.ep)
+			w.mgr.OnUpdate(&proto.WorkloadEndpointRemove{Id: epIDs[o.ep]})
+			log = append(log, fmt.Sprintf("REMOVE ep%d", o.ep))
 			c.Count("endpoint_removes", 1)
-		default: // interface oper state
-			n := ifaceNames[c.R.Intn(len(ifaceNames))]
-			st := ifacemonitor.StateUp
-			if c.R.Intn(2) == 0 {
-				st = ifacemonitor.StateDown
+		case "iface":
+			st := ifacemonitor.StateDown
+			if o.up {
+				st = ifacemonitor.StateUp
 			}
-			w.mgr.OnUpdate(intdataplane.NewIfaceStateUpdate(n, st, 10+c.R.Intn(3)))
-			log = append(log, fmt.Sprintf("IFACE %s %v", n, st))
+			w.mgr.OnUpdate(intdataplane.NewIfaceStateUpdate(o.iface, st, o.index))
+			log = append(log, fmt.Sprintf("IFACE %s %v", o.iface, st))
 			c.Count("iface_state_updates", 1)
-		}
-		sinceFlush++
-		if c.R.Intn(3) == 0 {
+		case "flush":
 			if !judge(false) {
-				return
+				return false
 			}
-			sinceFlush = 0
 		}
 	}
-	if !judge(true) {
-		return
+	if replica == 0 {
+		if collisions > 0 || renames > 0 {
+			c.NonTrivial(strings.Join(log, ";"))
+		}
+		if c.Index == 0 || c.Index == nStructured {
+			c.Sample(map[string]any{"nft": nft, "history": log})
+		}
 	}
-	if collisions > 0 || renames > 0 {
-		c.NonTrivial(strings.Join(log, ";"))
-	}
-	if c.Index < 2 {
-		c.Sample(map[string]any{"nft": nft, "history": log})
-	}
+	_ = checks
+	return true
 }
 
 func main() {
@@ -654,8 +733,8 @@ func main() {
 	harness.Main(harness.Check{
 		ID:    "C44",
 		Level: "exploration",
-		Rule: "histories of 6-30 (thorough 6-46) operations over 4 workload endpoint ids (differing in orchestrator, workload and endpoint id) and 3 interface names: update (new version: same or other interface, active 3/4), remove, " +
-			"interface up/down; ResolveUpdateBatch+CompleteDeferredWork after an operation with probability 1/3 and at the end, judged each time; iptables or nftables mode per case; " +
+		Rule: "cases 0-9 are five hand-written minimal shadowing histories in iptables and nftables mode; the rest are PRNG histories of 6-30 (thorough 6-46) operations over 4 workload endpoint ids (differing in orchestrator, workload and endpoint id) and 3 interface names: update (new version: same or other interface, active 3/4), remove, " +
+			"interface up/down; ResolveUpdateBatch+CompleteDeferredWork after an operation with probability 1/3 and at the end, judged each time; iptables or nftables mode per case; every history is executed on 3 fresh managers (the manager iterates Go maps); " +
 			"non-trivial = at least one interface collision or rename, distinct by the operation list",
 		Assumptions: []string{
 			"CGO off (felix/dataplane/linux imports libbpf): no race detector; the endpoint manager is single-goroutine by design",
